@@ -5,7 +5,7 @@ from props import *
 import props as P
 from props_struct import _sizes, _nontrivial_hist
 
-ATTR_KINDS = ("expand", "bfs", "dfs", "min", "target", "cands", "seeds", "sets", "seeds", "cands", "reclaim", "pickle")
+ATTR_KINDS = ("expand", "bfs", "dfs", "min", "target", "cands", "seeds", "sets", "seeds", "cands", "reclaim", "pickle", "block")
 SKIP_KINDS = ATTR_KINDS + ("skipmin", "skiprem", "skip")
 
 def verdict_violations(pid, w, kinds=("cands", "seeds", "sets"), skip_ok=True):
@@ -120,7 +120,7 @@ def run_C01(tier, seed):
         st = rng.choice(STRATEGIES)
         if st[0] == "min":       # minimal-space expansion alone is not a complete strategy for attractors (MAAs may sit in stubs)
             st = ("aseeds", None)
-        model_ok = st[0] in ("bfs", "dfs")
+        model_ok = st[0] in ("bfs", "dfs", "block")
         cases.append({"rules": rules, "config": {}, "history": [st, ("seeds_all",)], "attr": True, "nomodel": not model_ok, "global_seeds": True})
     cases = load_corpus("C01") + cases
     cases = pmap(P._fix_worker, cases)
